@@ -27,3 +27,35 @@ PROPS = {
         "assumptions": ["bounded universe as the property states; unbounded statements for the simple operations are in Ids/RangesProofs.v when present"],
     },
 }
+
+HIST_RULE = "seeded multi-replica histories (2..4 replicas with distinct client ids incl. ids >= 2^32 and the maximal 53-bit id; local transactions of 1..3 API calls over text / rich text / embeds / array / map / XML / nested types interleaved with deliveries in v1 or v2), then every replica receives what it lacks in FIFO, reverse or random order with duplicated deliveries and merged (merge_updates_v1) relays; after EVERY step the hook dump of the replica (item order incl. tombstones expanded to units, deletion flags, content, integrated id set) is compared with the Coq model's render of that integrated id set, and the model's own dependency closure is compared with the replica's pending flag; histories with <= 5 messages are additionally replayed on a fresh replica in every permutation. A history is non-trivial when it contains at least two messages of which one was created while another was still undelivered to its author (real concurrency); distinct by (stream, case index)"
+
+PROPS["C02"] = {
+    "level": "proof",
+    "theorems": ["C02_never_drops", "C02_stashed_iff_dependency_absent", "C02_liveness", "C02_monotone_idempotent_exact"],
+    "theorem_kinds": {
+        "C02_never_drops": "unbounded (induction over the delivery loop)",
+        "C02_stashed_iff_dependency_absent": "unbounded; 'reports missing exactly while a dependency is absent' at stash level",
+        "C02_liveness": "unbounded; any arrival order (Permutation) of a dependency-closed set empties the stash",
+        "C02_monotone_idempotent_exact": "unbounded",
+    },
+    "rule": HIST_RULE,
+    "trusted_base": ["modelled: dependency-driven delivery at unit level (deliver = closure under 'explicit dependencies integrated'); the implementation's block-level BlockPicker / PendingUpdate.missing bookkeeping is NOT modelled - it is tied to the model by the correspondence (has_missing_updates == model stash or pending deletes non-empty, integrated set == model closure whenever the model stash is empty)"],
+    "modelled_not_verified": ["BlockPicker stack/switch control flow", "Update::merge_updates used when merging a new remainder into the stash", "encode_state_as_update merge_pending (covered by C06/C08 checks)"],
+    "assumptions": ["the implementation may keep operations stashed while another stashed operation still lacks a dependency (one retry trigger per client); it must report missing updates exactly while the model's stash or pending delete set is non-empty"],
+}
+PROPS["C04"] = {
+    "level": "proof",
+    "theorems": ["C04_inserted_exactly_once", "C04_relative_order_stable", "C04_placed_between_origins", "C04_placed_right_of_origin",
+                 "C04_placed_left_of_right_origin", "C04_deleted_never_visible_again"],
+    "theorem_kinds": {
+        "C04_inserted_exactly_once": "unbounded, any list, any item",
+        "C04_relative_order_stable": "unbounded (per replica: every later state)",
+        "C04_placed_between_origins": "unbounded",
+        "C04_deleted_never_visible_again": "unbounded (through any delivery and any delete set)",
+    },
+    "rule": HIST_RULE + "; C04 oracle on every state of every replica: each unit id occurs once in its list, and the relative order of every pair of visible units agrees with every earlier observation of that pair on ANY replica of the history",
+    "trusted_base": ["cross-replica agreement of the order (same order on every replica) is the tombstone-level convergence of C01: proved for the finite universes of Crdt/YataFinite.v, otherwise established by the correspondence only"],
+    "modelled_not_verified": ["block split / squash (units of one block are consecutive by construction of units_of_item; the implementation's splice is compared through the unit-expanded dump)"],
+    "assumptions": [],
+}
